@@ -155,6 +155,31 @@ def judge(d):
             compare(f"file{suffix}", m, back, out, 4, False, d)
             # cross-reading: a text file written by to_file is readable by from_csv
             compare(f"file{suffix}->from_csv", m, Molecules.from_csv(f), out, 4, False, d)
+        # the same object, modified in place after it has been saved once, must be saved in its new state
+        mod = d.get("modify")
+        if mod:
+            n = len(m)
+            if mod == "rotate":
+                m.rotate_by_rotvec(np.tile([0.3, -0.2, 0.5], (n, 1)), copy=False)
+            elif mod == "rotate-internal":
+                m.rotate_by_rotvec_internal(np.tile([-0.4, 0.1, 0.2], (n, 1)), copy=False)
+            elif mod == "translate":
+                m.translate([1.5, -2.25, 0.75], copy=False)
+            elif mod == "features":
+                import polars as pl
+                m.features = m.features.with_columns(pl.Series("extra", list(range(n)))) if d["cols"] else {"extra": list(range(n))}
+                d = dict(d)
+                d["cols"] = d["cols"] + [{"name": "extra", "kind": "int", "vals": list(range(n)), "fill": 0}]
+            elif mod == "append":
+                m.append(m.subset(slice(0, 1)))
+            expected = Molecules(m.pos.copy(), Rotation.from_quat(m.quaternion().copy()), features=m.features.clone() if len(m.features.columns) else None)
+            compare(f"after in-place {mod}: dataframe", expected, Molecules.from_dataframe(m.to_dataframe()), out, None, True, d)
+            f = os.path.join(tmp, "again.parquet")
+            m.to_file(f)
+            compare(f"after in-place {mod}: parquet", expected, Molecules.from_file(f), out, None, True, d)
+            f = os.path.join(tmp, "again.csv")
+            m.to_csv(f, float_precision=p)
+            compare(f"after in-place {mod}: csv(precision={p})", expected, Molecules.from_csv(f), out, p, False, d)
     return out
 
 
@@ -199,7 +224,8 @@ def cases(draw):
     names = draw(st.permutations(["score", "label", "A", "pf-id", "nth", "Zed"]))[:ncol]
     cols = [draw(column(nm)) for nm in names]
     return {"rows": rows, "cols": cols, "precision": draw(st.sampled_from([None, 0, 1, 2, 3, 4, 4, 5, 6, 8])),
-            "suffix": draw(st.sampled_from([".csv", ".txt", ".parquet", ".pq", "", ".tsv", ".PARQUET", ".dat"]))}
+            "suffix": draw(st.sampled_from([".csv", ".txt", ".parquet", ".pq", "", ".tsv", ".PARQUET", ".dat"])),
+            "modify": draw(st.sampled_from([None, "rotate", "rotate-internal", "translate", "features", "append"]))}
 
 
 def nontrivial(d):
@@ -212,6 +238,7 @@ def labels(d):
     labs |= {f"col:{c['kind']}" for c in d["cols"]}
     labs.add(f"precision:{d['precision']}")
     labs.add(f"suffix:{d['suffix'] or '(none)'}")
+    labs.add(f"then-modify:{d.get('modify')}")
     labs.add("rows:" + ("1" if len(d["rows"]) == 1 else "2-6" if len(d["rows"]) <= 6 else "7-40"))
     if any(v is None for c in d["cols"] for v in c["vals"]):
         labs.add("nulls")
